@@ -461,3 +461,4 @@ Definition mismatches (cs : list (eth_tx * obs)) : list nat := mismatches_from 0
 
 (** shorthand used by the generated case files *)
 Definition hx (s : string) : bytes := unhex_or_nil s.
+Definition hxs (l : list string) : bytes := concat (map unhex_or_nil l).
